@@ -32,30 +32,56 @@ package catchup
 // non-genuine answers over the reachable (round, attempt) positions x every menu entry.
 //
 // Programs:
-//   sync/...   catch-up of rounds 1..tip by pipelinedFetch (tip 4 quick / 5 thorough, 3 parallel
-//              fetches, sync round disabled above tip so that no request goes beyond the chain),
-//              config modes "add" (AddBlock path) and "val" (Validate + AddValidatedBlock path).
-//   cert/...   agreement hands the service a certificate for the next round (syncCert ->
-//              fetchRound -> EnsureBlock), rounds 1..2 one after the other.
+//   sync/add/…   catch-up of rounds 1..tip by pipelinedFetch (tip 4 quick / 5 thorough; at most
+//                CatchupParallelBlocks=3 fetches in flight; sync round disabled above the tip so
+//                that no request goes beyond the chain); default config: AddBlock path.
+//   sync/val/…   same with CatchupBlockValidateMode=12: Validate + AddValidatedBlock path.
+//   sync/addw/…  same as add with a slow ledger: every AddBlock is handed to a managed "ledger"
+//                thread and takes effect only when the scheduler grants it (one more choice point
+//                per write; responses can be released while a write is in progress).
+//   cert/…       agreement hands the service a certificate for the next round (periodicSync ->
+//                syncCert -> fetchRound -> EnsureBlock), rounds 1..2 one after the other.
+// Script families: D0 (all genuine), D1, D2 = every script with exactly 1 / 2 non-genuine answers.
+// Quick: add D0-D2, val D0-D1, addw D0-D1, cert D0-D2, bound 2. Thorough: all modes D0-D2, cert
+// D0-D3, bound 3.
 //
 // Oracle (reference = the chain itself, boring Go): the k-th ledger write call made by the
-// service is for round k exactly (no gap, no repeat, judged against the ledger height at the time
-// of the call), its block encodes byte-for-byte to the genuine block of that round, its payset
-// matches its header (real ContentsMatchHeader), its certificate encodes to the genuine
-// certificate, and (sync program) the authenticator accepted that round before the write. The
-// service must stop when asked (Service.Stop returns; otherwise E-SCHED reports a deadlock).
-// Progress (ledger reaches the tip) is recorded as an outcome class only; it is demanded only of
-// the all-genuine script as a harness self-test.
+// service is for round k exactly (no gap, no repeat, judged against the ledger height at the moment
+// the write takes effect), its block encodes byte-for-byte to the genuine block of that round, its
+// payset matches its header (real ContentsMatchHeader), its certificate encodes to the genuine
+// certificate, and (sync programs) the authenticator had accepted that round before the write.
+// The service must stop when asked (Service.Stop returns; otherwise E-SCHED reports a deadlock);
+// "still waiting" is allowed: after 3 virtual minutes the harness stops the service and judges
+// the writes made so far. Progress (ledger reaches the tip) is recorded as an outcome class only;
+// it is demanded only of the all-genuine script, as a harness self-test.
 //
 // Not covered: which of the two peers is asked (chosen by the real selector with crypto/rand;
 // answers are a function of (round, attempt) only, so the script space has no peer dimension);
 // the HTTP fetcher; a second writer (agreement) racing with catchup; requests beyond the chain
 // tip (cut off with the service's own SetDisableSyncRound); certificate cryptography (C03/C04);
 // interleavings inside the service's own goroutines below the granularity "run to quiescence
-// after each released response"; panics in service goroutines abort the binary (exit 2).
+// after each released response / granted write"; the unsupported-protocol answer at rounds other
+// than 1 and tip (see syncAllowed); a panic in a service goroutine aborts the binary (exit 2, not a
+// verdict).
 //
-// Mutants (bin/mut C30 …, quick tier): see the end of this comment block in the final report
-// and checks.d/C30.json.
+// Mutants (VERIF_REPO=… bin/mut C30 <file> … --only, quick tier), all restored afterwards:
+//   M1  service.go fetchAndWrite: `case <-prevFetchCompleteChan:` -> `case <-lookbackComplete:`
+//       DETECTED (write-out-of-order; needs the schedule "round 2 answered before round 1", the
+//       default schedule passes)
+//   M2  service.go fetchAndWrite: drop the `continue` after a failed auth.Authenticate
+//       DETECTED (write-non-genuine-block)
+//   M3  service.go fetchAndWrite: `if false && !block.ContentsMatchHeader()`   DETECTED (write-payset-mismatch)
+//   M4  universalFetcher.go processBlockBytes: block-round check removed        MISSED, equivalent: the
+//       certificate-round check right after it rejects the same answers; M4' = both round checks
+//       removed: DETECTED (write-out-of-order: genuine block r+1 written at height r-1)
+//   M5  service.go fetchRound: `block.Hash() == blockHash &&` removed           DETECTED (cert program)
+//   M6  service.go fetchRound: `&& block.ContentsMatchHeader()` removed         DETECTED (cert program)
+//   M7  service.go fetchAndWrite: `if i == 1 && !block.ContentsMatchHeader()`   DETECTED (needs a D2 script:
+//       a bad first answer, then a payset-altered retry)
+//   M8  service.go pipelinedFetch: `prev := s.ledger.WaitMem(r.SubSaturate(2))` DETECTED (write-out-of-order)
+//   M9  service.go fetchAndWrite: `if s.cfg.CatchupVerifyCertificate() && i > 1` DETECTED
+//   M10 service.go fetchAndWrite: on a retry wait for lookbackComplete instead of prevFetchCompleteChan
+//       before the write (`if i > 1 { prevFetchCompleteChan = lookbackComplete }`)  DETECTED
 
 import (
 	"bytes"
@@ -779,6 +805,7 @@ type c30Stats struct {
 	authRej   int64
 	requests  int64
 	bothPeers bool
+	stage     map[string]string // single-deviation sync scripts: menu entry -> where the service rejected it
 }
 
 func (st *c30Stats) add(e *c30Env) {
@@ -798,6 +825,17 @@ func (st *c30Stats) add(e *c30Env) {
 	}
 	if e.peersHit[0] > 0 && e.peersHit[1] > 0 {
 		st.bothPeers = true
+	}
+	if !e.certProg && len(e.script) == 1 {
+		where := "before the authenticator (fetch / decode / round check / payset check)"
+		if e.authRej > 0 {
+			where = "by the authenticator"
+		}
+		name := c30Menu[e.script[0].entry]
+		if old, ok := st.stage[name]; ok && old != where {
+			where = "MIXED"
+		}
+		st.stage[name] = where
 	}
 }
 
@@ -1017,7 +1055,7 @@ func TestVerif_C30(t *testing.T) {
 		famCount["cert"]++
 	}
 
-	st := &c30Stats{outcomes: map[string]int{}}
+	st := &c30Stats{outcomes: map[string]int{}, stage: map[string]string{}}
 	var cmu sync.Mutex
 	var cov ve.Coverage
 	famExec := map[string]int64{}
@@ -1058,6 +1096,7 @@ func TestVerif_C30(t *testing.T) {
 	r.Set("scripts", len(jobs))
 	r.Set("outcome_classes", len(outs))
 	r.Set("outcomes", st.outcomes)
+	r.Set("rejected_where", st.stage)
 	r.Set("executions_reaching_tip", st.reached)
 	r.Set("executions_not_reaching_tip", st.notReach)
 	r.Set("ledger_writes_checked", st.writes)
